@@ -248,11 +248,13 @@ def h_new_chain(n_guards):
         def filter_eval(i, vars_):
             def th():
                 w.emit("filter", dict(vars_))
-                r = ["true", "false", "raises"][eng.choose(3, "filter")]
+                # a filter is any Python expression: it accepts iff its value is TRUE IN A BOOLEAN CONTEXT (None, 0, '' reject;
+                # 1, a non-empty string accept), not only for the objects True / False
+                r = ["true", "false", "raises", "none", "zero", "one"][eng.choose(6, "filter")]
                 filt["result"] = r
                 if r == "raises":
                     raise exc("UserException", "bad filter")
-                return r == "true"
+                return {"true": True, "false": False, "none": None, "zero": 0, "one": 1}[r]
             return Coro(th, "filter.eval")
 
         expr = Rec(fields={"eval": filter_eval}, name="filter_expr") if has_filter else None
@@ -281,11 +283,13 @@ def h_new_chain(n_guards):
         k, v = run_catching(it, lambda: it.await_(it.call(it.getattr_(dec, "_event_callback"), [event], {})))
         eng.cover(f"ran:{k}")
         eng.oblige(f"{U}/post.nothing-escapes-into-home-assistant", k == "ok")
-        accept = (not has_filter or filt["result"] == "true")
+        accept = (not has_filter or filt["result"] in ("true", "one"))
         guard_events = [e[1] for e in w.events("guard")]
         rejected_by_guard = any(p.endswith("=1") and p.startswith("guard") for p in eng.path_log)
         want_task = accept and not rejected_by_guard
-        eng.oblige(f"{U}/post.exactly-one-task-iff-filter-and-guards-accept", len(tasks) == (1 if want_task else 0))
+        ob = eng.oblige(f"{U}/post.exactly-one-task-iff-filter-and-guards-accept", len(tasks) == (1 if want_task else 0))
+        if ob.status == "refuted" and filt["result"] in ("none", "zero", "one"):
+            ob.witness = {"signature": "filter-value-not-a-bool", "filter_value": filt["result"]}
         if has_filter:
             fe = w.events("filter")
             eng.oblige(f"{U}/post.filter-sees-the-message", len(fe) == 1 and fe[0][1] == {
@@ -410,7 +414,8 @@ def harnesses():
         hs.append(Harness(f"new-chain[guards={n}]", h_new_chain(n),
                           units=[(DE_PY, "EventTriggerDecorator._event_callback"), (DA_PY, "TriggerDecorator.dispatch"),
                                  (D_PY, "FunctionDecoratorManager.dispatch"), (D_PY, "FunctionDecoratorManager._call"),
-                                 (f"{PKG}/decorators/base.py", "ExpressionDecorator.check_expression_vars")]))
+                                 (f"{PKG}/decorators/base.py", "ExpressionDecorator.check_expression_vars")],
+                          replay=lambda wj: __import__("replay.native", fromlist=["run_native"]).run_native("c08_event_filter_value", wj)))
     hs.append(Harness("TrigInfo.call_action", h_call_action, units=[(T_PY, "TrigInfo.call_action")]))
     hs.append(Harness("bounded.dual-subsystems", bounded_dual(500, 100), units=[(T_PY, "TrigInfo.trigger_watch"), (D_PY, "FunctionDecoratorManager.dispatch")], kind="bounded"))
     for k in range(1, 5):
